@@ -7,3 +7,5 @@ import ChibiVerif.Props.C11
 import ChibiVerif.Findings.C11
 import ChibiVerif.Props.C14
 import ChibiVerif.Findings.C14
+import ChibiVerif.Props.C10
+import ChibiVerif.Findings.C10
